@@ -56,7 +56,7 @@ macro_rules! contract_signed { ($w:ident, $h:ident, $T:ty, $f:ident) => {
     pub fn $w(x: $T, fs: i32, fd: u32, id: u32) -> Conv { $f(x, fs, fd, id) }
     #[cfg(kani)]
     #[kani::proof_for_contract($w)]
-    fn $h() { $w(kani::any(), kani::any(), kani::any(), kani::any()); }
+    pub fn $h() { $w(kani::any(), kani::any(), kani::any(), kani::any()); }
 }}
 macro_rules! contract_unsigned { ($w:ident, $h:ident, $T:ty, $f:ident) => {
     #[kani::requires(fs >= -1100 && fs <= 1300 && layout_ok(fd, id))]
@@ -64,7 +64,7 @@ macro_rules! contract_unsigned { ($w:ident, $h:ident, $T:ty, $f:ident) => {
     pub fn $w(x: $T, fs: i32, fd: u32, id: u32) -> Conv { $f(x, fs, fd, id) }
     #[cfg(kani)]
     #[kani::proof_for_contract($w)]
-    fn $h() { $w(kani::any(), kani::any(), kani::any(), kani::any()); }
+    pub fn $h() { $w(kani::any(), kani::any(), kani::any(), kani::any()); }
 }}
 contract_signed!(tfh_i8, check_tfh_i8, i8, to_fixed_helper_i8);
 contract_signed!(tfh_i16, check_tfh_i16, i16, to_fixed_helper_i16);
@@ -80,7 +80,7 @@ contract_unsigned!(tfh_u128, check_tfh_u128, u128, to_fixed_helper_u128);
 // reachability guard behind the precondition (vacuity check): both tags and an overflow are reachable
 #[cfg(kani)]
 #[kani::proof]
-fn cover_tfh() {
+pub fn cover_tfh() {
     let (x, fs, fd, id): (i32, i32, u32, u32) = (kani::any(), kani::any(), kani::any(), kani::any());
     kani::assume(fs >= -1100 && fs <= 1300 && layout_ok(fd, id));
     let r = to_fixed_helper_i32(x, fs, fd, id);
